@@ -48,7 +48,7 @@ def run(ctx):
     grid_g = rnd.choice([2, 3]) if q else 3
     consts = {
         "OneA": set(rnd.sample(range(16), 1)) if q else set(range(16)),
-        "Stride": 2 if q else 1, "Off": rnd.randrange(2) if q else 0,
+        "Stride": 4 if q else 1, "Off": rnd.randrange(4) if q else 0,
         "MultiRoots": set(rnd.sample(range(1, 10), 1)) if q else set(range(1, 10)),
         "MultiMenu": set(rnd.sample(range(1, 10), 3)) if q else set(rnd.sample(range(1, 10), 4)),
         "BigRoots": set(rnd.sample(range(5), 1)) if q else set(range(5)),
@@ -60,7 +60,7 @@ def run(ctx):
         "GridEvery": (3 if grid_g == 2 else 40) if q else 3,
         "GridOff": 0,
         "RealKinds": set(range(1, 16)),
-        "RealPlaces": set(rnd.sample(range(1, 64), 24)) if q else set(range(1, 64)),
+        "RealPlaces": set(rnd.sample(range(1, 52), 24)) if q else set(range(1, 52)),
         "RealSizes": set(rnd.sample(range(12), 8)) if q else set(range(12)),
         "RealEvery": 12 if q else 2,
         "RectEvery": 40 if q else 3,
